@@ -47,6 +47,7 @@ type vfC17Cli struct {
 	seq   int
 	clean bool
 	conn  net.Conn
+	how   string // how this connection came about: fresh | reconnect (id was closed before) | takeover
 }
 
 type vfC17MRig struct {
@@ -159,15 +160,20 @@ func (r *vfC17MRig) capViolation() {
 	key := "more-connected-clients-than-maxAllowedConnection"
 	if len(missing) > 0 {
 		id := missing[0]
-		// a takeover that is still being answered counts: the broker may already have processed it
+		// what the missing holder's connection was: the connection the harness counts for the id, or a
+		// takeover of the id that is being answered right now (the broker may have processed it already)
+		how := r.held[id].how
+		if r.takingOver[id] {
+			how = "takeover"
+		}
 		switch {
-		case (r.tookOver[id] || r.takingOver[id]) && r.cleanOf[id]:
+		case how == "takeover" && r.cleanOf[id]:
 			key = "clean-session-takeover: new connection dropped from the registry (socket left open) once the old connection is torn down, then a further client is admitted"
-		case r.tookOver[id] || r.takingOver[id]:
+		case how == "takeover":
 			key = "persistent-session-takeover: new connection dropped from the registry while still connected"
-		case r.reconnected[id] && r.cleanOf[id]:
+		case how == "reconnect" && r.cleanOf[id]:
 			key = "clean-session-reconnect: new connection dropped from the registry (socket left open) by the previous connection's teardown, then a further client is admitted"
-		case r.reconnected[id]:
+		case how == "reconnect":
 			key = "persistent-session-reconnect: new connection dropped from the registry while still connected"
 		default:
 			key = "connected-client-missing-from-registry"
@@ -205,6 +211,28 @@ func (r *vfC17MRig) closeCli(id string, graceful bool) {
 		io.Copy(io.Discard, c.conn)
 	}
 	vfC17HardClose(c.conn)
+}
+
+func vfC17MBackoff(attempt int) time.Duration {
+	d := time.Duration(attempt+1) * 10 * time.Millisecond
+	if d > 500*time.Millisecond {
+		d = 500 * time.Millisecond
+	}
+	return d
+}
+
+// vfC17MDial dials with retries (transient EADDRNOTAVAIL / timeouts on a machine whose ephemeral
+// ports are churned by other processes); only about 25 s of failures make a case inconclusive.
+func vfC17MDial(addr string) (net.Conn, error) {
+	var err error
+	for attempt := 0; attempt < 60; attempt++ {
+		var c net.Conn
+		if c, err = net.DialTimeout("tcp", addr, vfC17MqttWait); err == nil {
+			return c, nil
+		}
+		time.Sleep(vfC17MBackoff(attempt))
+	}
+	return nil, err
 }
 
 // vfC17HardClose closes with SO_LINGER 0 (RST): no TIME_WAIT socket is left behind, so that
@@ -283,9 +311,16 @@ func TestVerifC17Mqtt(t *testing.T) {
 		r := &vfC17MRig{cap: capN, held: map[string]*vfC17Cli{}, tookOver: map[string]bool{}, takingOver: map[string]bool{}, reconnected: map[string]bool{},
 			closedOnce: map[string]bool{}, cleanOf: map[string]bool{}}
 		r.cond = sync.NewCond(&r.mu)
-		r.b = newBroker(spec, newStorage(nil), r, func(string, string) ([]string, error) { return nil, nil })
+		// port 0: the kernel picks the port atomically inside newBroker; a transient failure (ephemeral
+		// range momentarily exhausted by other processes) is retried for about 25 s
+		for attempt := 0; attempt < 60 && r.b == nil; attempt++ {
+			r.b = newBroker(spec, newStorage(nil), r, func(string, string) ([]string, error) { return nil, nil })
+			if r.b == nil {
+				time.Sleep(vfC17MBackoff(attempt))
+			}
+		}
 		if r.b == nil {
-			rt.Fatalf("VF-INCONCLUSIVE broker could not listen")
+			rt.Fatalf("VF-INCONCLUSIVE broker could not listen on an ephemeral port in 60 attempts")
 		}
 		r.addr = fmt.Sprintf("127.0.0.1:%d", r.b.listener.Addr().(*net.TCPAddr).Port)
 		var allConns []net.Conn
@@ -411,7 +446,7 @@ func TestVerifC17Mqtt(t *testing.T) {
 			var wg sync.WaitGroup
 			outcomes := make([]string, len(connects))
 			for i, o := range connects {
-				conn, err := net.DialTimeout("tcp", r.addr, vfC17MqttWait)
+				conn, err := vfC17MDial(r.addr)
 				if err != nil {
 					r.mu.Lock()
 					r.hold = false
@@ -428,12 +463,14 @@ func TestVerifC17Mqtt(t *testing.T) {
 				connsMu.Unlock()
 				r.mu.Lock()
 				r.seq++
-				cli := &vfC17Cli{id: o.ID, seq: r.seq, clean: clean, conn: conn}
+				cli := &vfC17Cli{id: o.ID, seq: r.seq, clean: clean, conn: conn, how: "fresh"}
 				if r.closedOnce[o.ID] {
 					r.reconnected[o.ID] = true
+					cli.how = "reconnect"
 				}
 				if o.Kind == "takeover" {
 					r.takingOver[o.ID] = true
+					cli.how = "takeover"
 				}
 				r.cleanOf[o.ID] = clean
 				r.mu.Unlock()
@@ -445,6 +482,7 @@ func TestVerifC17Mqtt(t *testing.T) {
 					r.mu.Lock()
 					outcomes[i] = out
 					r.answered++
+					delete(r.takingOver, cli.id) // answered: from now on the holder's own history counts
 					if out == "accepted" {
 						r.onAccepted(cli)
 					} else {
@@ -586,7 +624,7 @@ func TestVerifC17Mqtt(t *testing.T) {
 				seq := r.seq
 				r.mu.Unlock()
 				id := fmt.Sprintf("p%d", bi)
-				conn, err := net.DialTimeout("tcp", r.addr, vfC17MqttWait)
+				conn, err := vfC17MDial(r.addr)
 				if err != nil {
 					inconclusive = "cannot dial the broker: " + err.Error()
 					break
@@ -603,7 +641,7 @@ func TestVerifC17Mqtt(t *testing.T) {
 					if heldN < capN && len(closes) > 0 {
 						sawReuse = true
 					}
-					r.onAccepted(&vfC17Cli{id: id, seq: seq, clean: clean, conn: conn})
+					r.onAccepted(&vfC17Cli{id: id, seq: seq, clean: clean, conn: conn, how: "fresh"})
 				case out == "unavailable":
 					sawRefused++
 					if heldN < capN {
